@@ -185,10 +185,26 @@ fn v6_forms(a: &str) -> Vec<String> {
     }
 }
 
+/// the IPv4-mapped spellings of an IPv4 address (an IPv6 address is returned in its usual forms)
+fn mapped_forms(a: &str) -> Vec<String> {
+    match a.parse::<IpAddr>() {
+        Ok(IpAddr::V4(v4)) => {
+            let o = v4.octets();
+            vec![
+                format!("::ffff:{}", v4),
+                format!("::ffff:{:x}:{:x}", ((o[0] as u16) << 8) | o[1] as u16, ((o[2] as u16) << 8) | o[3] as u16),
+                format!("0:0:0:0:0:FFFF:{}", v4),
+            ]
+        }
+        _ => v6_forms(a),
+    }
+}
+
 impl Server {
     /// `bind_ip`: "127.0.0.1", "::1" or "::" (dual-stack: clients then connect to 127.0.0.1 and are seen by the
     /// server as ::ffff:127.x.y.z).  `variant` picks textual forms in the generated files.
-    fn start(bin: &str, base: &Path, name: &str, bind_ip: &str, mode: &str, list: &[String], cache: bool, variant: usize) -> Result<Server, String> {
+    /// `lm`: the IPv4 entries of the blacklist file are written in IPv4-mapped form (two spellings alternate).
+    fn start(bin: &str, base: &Path, name: &str, bind_ip: &str, mode: &str, list: &[String], lm: bool, cache: bool, variant: usize) -> Result<Server, String> {
         let dir = base.join(name);
         let _ = fs::remove_dir_all(&dir);
         fs::create_dir_all(dir.join("www")).map_err(|e| e.to_string())?;
@@ -196,7 +212,7 @@ impl Server {
         fs::write(dir.join("www").join("a.txt"), "C19-DIR v0\n").map_err(|e| e.to_string())?;
         let mut bl = String::new();
         for (i, a) in list.iter().enumerate() {
-            let forms = v6_forms(a);
+            let forms = if lm { mapped_forms(a) } else { v6_forms(a) };
             bl.push_str(&forms[(variant + i) % forms.len()]);
             bl.push('\n');
         }
@@ -591,6 +607,8 @@ struct Stats {
 }
 
 struct Group {
+    dual: bool,
+    lm: bool,
     mode: String,
     list: Vec<String>,
     cache: bool,
@@ -609,7 +627,10 @@ fn parse_es(row: &Value) -> Vec<(String, bool, bool)> {
 
 fn run_group(bin: &str, base: &Path, gi: usize, g: &Group, st: &mut Stats, have_v6: bool, have_dual: bool, alt_v6: Option<Ipv6Addr>) -> Result<(), String> {
     let mut counter: usize = gi * 7;
-    for (bind_ip, tag) in [("127.0.0.1", "v4"), ("::", "dual"), ("::1", "v6")] {
+    // a line of a dual-stack configuration goes to the instance on "::" (IPv4 peers only), any other line to the
+    // single-stack instance of its peer's family
+    let plan: &[(&str, &str)] = if g.dual { &[("::", "dual")] } else { &[("127.0.0.1", "v4"), ("::1", "v6")] };
+    for &(bind_ip, tag) in plan {
         let fam_v6 = bind_ip == "::1";
         let lines: Vec<&Value> = g.lines.iter().filter(|l| l["peer"].as_str().unwrap_or("").contains(':') == fam_v6).collect();
         if lines.is_empty() {
@@ -623,7 +644,7 @@ fn run_group(bin: &str, base: &Path, gi: usize, g: &Group, st: &mut Stats, have_
             st.skipped_no_dual += lines.iter().map(|l| l["rows"].as_array().map(|r| r.len()).unwrap_or(0) as u64).sum::<u64>();
             continue;
         }
-        let mut srv = Server::start(bin, base, &format!("g{}{}", gi, tag), bind_ip, &g.mode, &g.list, g.cache, gi)?;
+        let mut srv = Server::start(bin, base, &format!("g{}{}", gi, tag), bind_ip, &g.mode, &g.list, g.lm, g.cache, gi)?;
         st.servers += 1;
         // warm targets (cache on): requested once by a client that is on no list
         if g.cache {
@@ -738,21 +759,17 @@ fn run_group(bin: &str, base: &Path, gi: usize, g: &Group, st: &mut Stats, have_
                             let mut dev = serde_json::Map::new();
                             if let Some(d) = row["dev"].as_object() {
                                 for (k, v) in d {
-                                    // the mapped-form deviation is only a candidate explanation on the dual-stack instance
-                                    if k == "MappedPeerUnmatched" && bind_ip != "::" {
-                                        continue;
-                                    }
                                     dev.insert(k.clone(), v[rt].clone());
                                 }
                             }
-                            let m = json!({"mode": g.mode, "list": g.list, "cache": g.cache, "peer": peer_s, "listen": bind_ip,
+                            let m = json!({"mode": g.mode, "list": g.list, "cache": g.cache, "dual": g.dual, "lm": g.lm, "peer": peer_s, "listen": bind_ip,
                                 "xff_header": xff_text, "p": present, "es": row["es"], "rt": rt, "uri": uri, "warm": warm,
                                 "exp": exp, "got": got, "model": model, "dev": dev, "detail": detail});
                             if st.first.len() < 400 {
                                 st.first.push(m);
                             }
                         } else if st.samples.len() < 8 && exp != ["Served"] && (counter % 97 == 0 || (st.samples.len() < 2 && present && es.len() >= 2)) {
-                            st.samples.push(json!({"mode": g.mode, "list": g.list, "cache": g.cache, "peer": peer_s, "x_forwarded_for": xff_text, "route": rt, "warm_target": warm, "allowed": exp, "observed": got}));
+                            st.samples.push(json!({"mode": g.mode, "list": g.list, "list_entries_ipv4_mapped": g.lm, "server_address": bind_ip, "cache": g.cache, "peer": peer_s, "x_forwarded_for": xff_text, "route": rt, "warm_target": warm, "allowed": exp, "observed": got}));
                         }
                     }
                 }
@@ -777,9 +794,11 @@ fn replay(bin: &str, base: &Path, threads: usize) {
         nlines += 1;
         let mut list: Vec<String> = v["list"].as_array().map(|a| a.iter().map(|x| x.as_str().unwrap_or("").to_string()).collect()).unwrap_or_default();
         list.sort();
-        let key = format!("{}|{}|{}", v["mode"], list.join(","), v["cache"]);
+        let dual = v["dual"].as_bool().unwrap_or(false);
+        let lm = v["lm"].as_bool().unwrap_or(false);
+        let key = format!("{}|{}|{}|{}|{}", v["mode"], list.join(","), v["cache"], dual, lm);
         let gi = *index.entry(key).or_insert_with(|| {
-            groups.push(Group { mode: v["mode"].as_str().unwrap_or("").to_string(), list: list.clone(), cache: v["cache"].as_bool().unwrap_or(false), lines: vec![] });
+            groups.push(Group { dual, lm, mode: v["mode"].as_str().unwrap_or("").to_string(), list: list.clone(), cache: v["cache"].as_bool().unwrap_or(false), lines: vec![] });
             groups.len() - 1
         });
         groups[gi].lines.push(v);
@@ -861,8 +880,19 @@ fn replay(bin: &str, base: &Path, threads: usize) {
 // random sessions -> event log for Trace_Blacklist
 // ------------------------------------------------------------------------------------------------
 
-fn ev(kind: &str, dual: bool, mode: &str, list: &[String], cache: bool, peer: &str, present: bool, es: &Value, rt: &str, uri: &str, res: &str, from_cache: bool, n: usize) -> Value {
-    json!({"ev": kind, "dual": dual, "mode": mode, "list": list, "cache": cache, "peer": peer, "present": present, "es": es,
+fn ev(kind: &str, dual: bool, lm: bool, mode: &str, list: &[String], cache: bool, peer: &str, present: bool, es: &Value, rt: &str, uri: &str, res: &str, from_cache: bool, n: usize) -> Value {
+    let mut v4: Vec<String> = list.iter().filter(|a| !a.contains(':')).cloned().collect();
+    if !peer.is_empty() && !peer.contains(':') {
+        v4.push(peer.to_string());
+    }
+    if let Some(a) = es.as_array() {
+        for e in a {
+            if e["k"] == 1 && !e["a"].as_str().unwrap_or(":").contains(':') {
+                v4.push(e["a"].as_str().unwrap().to_string());
+            }
+        }
+    }
+    json!({"ev": kind, "dual": dual, "lm": lm, "v4": v4, "mode": mode, "list": list, "cache": cache, "peer": peer, "present": present, "es": es,
            "rt": rt, "uri": uri, "res": res, "fromCache": from_cache, "n": n})
 }
 
@@ -885,7 +915,8 @@ fn random(bin: &str, base: &Path, sessions: usize, conns: usize) {
             }
         }
         let cache = rng.chance(1, 2);
-        let mut s4 = match Server::start(bin, base, &format!("r{}v4", si), "127.0.0.1", mode, &list, cache, si) {
+        let lm = rng.chance(1, 3);
+        let mut s4 = match Server::start(bin, base, &format!("r{}v4", si), "127.0.0.1", mode, &list, lm, cache, si) {
             Ok(s) => s,
             Err(e) => {
                 eprintln!("{}", e);
@@ -893,7 +924,7 @@ fn random(bin: &str, base: &Path, sessions: usize, conns: usize) {
             }
         };
         let mut s6 = if have_v6 {
-            match Server::start(bin, base, &format!("r{}v6", si), "::1", mode, &list, cache, si + 1) {
+            match Server::start(bin, base, &format!("r{}v6", si), "::1", mode, &list, lm, cache, si + 1) {
                 Ok(s) => Some(s),
                 Err(e) => {
                     eprintln!("{}", e);
@@ -904,7 +935,7 @@ fn random(bin: &str, base: &Path, sessions: usize, conns: usize) {
             None
         };
         let mut sd = if have_dual {
-            match Server::start(bin, base, &format!("r{}dual", si), "::", mode, &list, cache, si + 2) {
+            match Server::start(bin, base, &format!("r{}dual", si), "::", mode, &list, lm, cache, si + 2) {
                 Ok(s) => Some(s),
                 Err(e) => {
                     eprintln!("{}", e);
@@ -920,7 +951,7 @@ fn random(bin: &str, base: &Path, sessions: usize, conns: usize) {
                 continue;
             }
             let dual = inst == 2;
-            out_line(&ev("cfg", dual, mode, &list, cache, "", false, &empty, "", "", "", false, 0));
+            out_line(&ev("cfg", dual, lm, mode, &list, cache, "", false, &empty, "", "", "", false, 0));
             let srv: &mut Server = match inst {
                 0 => &mut s4,
                 1 => s6.as_mut().unwrap(),
@@ -943,7 +974,7 @@ fn random(bin: &str, base: &Path, sessions: usize, conns: usize) {
                         continue;
                     }
                 };
-                out_line(&ev("conn", dual, mode, &list, cache, &peer_s, false, &empty, "", "", "", false, 0));
+                out_line(&ev("conn", dual, lm, mode, &list, cache, &peer_s, false, &empty, "", "", "", false, 0));
                 let nreq = rng.range(1, 4);
                 let mut leftover = vec![];
                 for k in 0..nreq {
@@ -985,13 +1016,13 @@ fn random(bin: &str, base: &Path, sessions: usize, conns: usize) {
                         eprintln!("inconclusive observation {} for peer {} route {}", res, peer_s, rt);
                         std::process::exit(3);
                     }
-                    out_line(&ev("req", dual, mode, &list, cache, &peer_s, present, &es_json, rt, &uri, &res, fc, k));
+                    out_line(&ev("req", dual, lm, mode, &list, cache, &peer_s, present, &es_json, rt, &uri, &res, fc, k));
                     if res != "Served" && res != "Forbidden403" {
                         break;
                     }
                 }
                 drop(stream);
-                out_line(&ev("close", dual, mode, &list, cache, &peer_s, false, &empty, "", "", "", false, 0));
+                out_line(&ev("close", dual, lm, mode, &list, cache, &peer_s, false, &empty, "", "", "", false, 0));
             }
         }
     }
